@@ -7,10 +7,20 @@ prop("C11", "exploration",
      "0xFFFF}, datagrams truncated to 0..11 bytes, ack/frame numbers in {0,1,2,3,small,1000,2^31,2^31+1,2^32-2,2^32-1}, REQ/RESP "
      "layouts with any tube type, with gaps and optionally interleaved honest traffic. Oracle: no panic; the control tube moves "
      "fresh data both ways during and after the junk; Muxer.Stop returns within 10 virtual seconds; no goroutine is left. "
-     "Non-trivial = sequence with at least one internally inconsistent frame; distinct by case hash.",
+     "Non-trivial = sequence with at least one internally inconsistent frame; distinct by case hash. Decoder half: random byte "
+     "strings and mutations of valid encodings (every length/enum field set to {0,1,actual+-1,0xFF,0xFFFF,large}, every "
+     "truncation) into common.ReadString, codex.GetCmd/readSize, portforwarding.readPacket, the authgrants readers and "
+     "userauth.GetInitMsg (over a real reliable tube); oracle: value or error, no panic, returns on a closed stream, bytes "
+     "allocated during the call <= 256 KiB + 16 x len(input). Non-trivial there = input whose length fields disagree with its size.",
      ["junk never addresses the honest control tube's own (reliability, id): an authenticated peer can always disturb a tube it owns",
-      "the application keeps calling Accept (as hopserver's session loop does)"],
-     [dict(name="muxer", pkg="tubes", run="^TestVerifC11Muxer$", shards=dict(quick=16, thorough=16), thorough_scale=40, timeout=dict(quick=900, thorough=7200))],
+      "the application keeps calling Accept (as hopserver's session loop does)",
+      "32-bit length fields are capped at 32 MiB in the decoder harness (a literal 0xFFFFFFFF made unfixed GetCmd allocate 24 GB and get the test process killed)"],
+     [dict(name="muxer", pkg="tubes", run="^TestVerifC11Muxer$", shards=dict(quick=16, thorough=16), thorough_scale=40, timeout=dict(quick=900, thorough=7200)),
+      dict(name="dec-common", pkg="common", run="^TestVerifC11Dec", shards=dict(quick=4, thorough=8), thorough_scale=100),
+      dict(name="dec-codex", pkg="codex", run="^TestVerifC11Dec", shards=dict(quick=8, thorough=8), thorough_scale=50),
+      dict(name="dec-portforwarding", pkg="portforwarding", run="^TestVerifC11Dec", shards=dict(quick=8, thorough=16), thorough_scale=100),
+      dict(name="dec-authgrants", pkg="authgrants", run="^TestVerifC11Dec", shards=dict(quick=8, thorough=16), thorough_scale=100),
+      dict(name="dec-userauth", pkg="userauth", run="^TestVerifC11Dec", shards=dict(quick=8, thorough=16), thorough_scale=30)],
      text="Generated hostile frame sequences are injected into a real muxer next to honest traffic under a virtual clock; liveness of "
           "the other tube, clean stop and absence of panics/leaks are checked. Decoder half: arbitrary and mutated byte strings into "
           "every application-protocol decoder with a panic and allocation oracle.",
